@@ -77,7 +77,7 @@ class Ctx:
         if not self.quick():
             return 1
         if not hasattr(self, "_scale"):
-            changed = changed_sources()
+            changed = changed_sources() or (['(forced by VERIF_DEEPEN_FORCE)'] if os.environ.get('VERIF_DEEPEN_FORCE') else [])
             self._scale = DEEPEN if changed else 1
             if changed:
                 self.extra["changed_sources"] = changed[:40]
